@@ -152,11 +152,18 @@ def fold_function(fi):
             if not ok:
                 continue
             bad = False
+            if len(uses) > 1 and any(isinstance(x, (ast.Call, ast.List, ast.Dict, ast.Set, ast.ListComp, ast.DictComp, ast.SetComp)) for x in ast.walk(expr)):
+                continue        # one object referred to twice would become two objects: sharing is part of the semantics
             for u in uses:
                 if (u.lineno, u.col_offset) <= (st.lineno, st.col_offset) or _in_nested_scope(u, fn):
                     bad = True
                 ul = _enclosing_loops(u, fn)
                 if dloops and (not ul or dloops[0] not in ul):
+                    bad = True
+                if ul and (not dloops or any(l_ not in dloops for l_ in ul)) and any(isinstance(x, (ast.Call, ast.List, ast.Dict, ast.Set, ast.ListComp, ast.DictComp, ast.SetComp))
+                                                                                          for x in ast.walk(expr)):
+                    # the definition is evaluated ONCE outside a loop the use runs in: folding a call / a container display into the loop would
+                    # create one object per iteration instead of one shared object (exactly the difference a per-record buffer rule looks for)
                     bad = True
                 if not dloops and ul:
                     # use inside a loop, definition outside: operands must not be written in that loop
